@@ -11,7 +11,7 @@
    Reference gradient :  ref_grad r b tl tc    = - mean_j ((r_j - b_j) * tl_j) + tc      (tl_j = d ll_j / d params). *)
 From Coq Require Import List Arith QArith Qcanon Reals.
 From RL4CO Require Import Base.OField Base.OFieldQc Base.OFieldR Base.OFieldExtraC16 Train.Baselines Train.Dual
-  Train.Loss Train.LossShared Train.LossPPO Train.LossShapes Train.LossInst Train.GenEqC16 Gen.GenC16.
+  Train.Loss Train.LossShared Train.LossPPO Train.LossShapes Train.LossInst Train.InvLoss Train.GenEqC16 Gen.GenC16.
 Import ListNotations.
 Close Scope Qc_scope. Close Scope Q_scope.
 Open Scope of_scope.
@@ -274,6 +274,80 @@ Theorem C16_symnco_total_value :
 Proof. exact symnco_total_value. Qed.
 Print Assumptions C16_symnco_total_value.
 
+(* ------------------------------------------------------------------ SymNCO invariance loss: the VALUE *)
+(* Train/InvLoss.v.  An embedding travels with its Euclidean norm ([nvec] = (vector, norm); nv_ok: norm >= 0 and
+   norm^2 = <u,u>), so no square root is needed.  cos_sim eps u v = <u,v> / (max(|u|,eps) * max(|v|,eps)) is
+   torch's cosine_similarity; inv_loss eps A rows = invariance_loss(proj_embed, A) with proj_embed given as its rows
+   [(b a)][node] (None = the code raises). *)
+Theorem C16_invariance_loss_value :
+  forall (K : ofield) (eps : K) (A : nat) (rows : list (list (nvec K))),
+    (2 <= A)%nat -> (length rows mod A)%nat = 0%nat ->
+    (forall r j, (r < length rows)%nat -> (j < length (inv_row rows 0))%nat -> fle eps (snd (inv_node rows r j))) ->
+    let B := (length rows / A)%nat in
+    let n := length (inv_row rows 0) in
+    inv_loss eps A rows =
+      Some (fsum (flat_map (fun b => map (fun j =>
+                    fsum (map (fun i => cos_ref (inv_node rows (b * A)%nat j) (inv_node rows (b * A + i)%nat j))
+                              (seq 1 (A - 1)%nat)))
+                    (seq 0 n)) (seq 0 B))
+            / of_nat (B * n)%nat).
+Proof. exact inv_loss_value. Qed.
+Print Assumptions C16_invariance_loss_value.
+
+(* the rows it compares are those of the pairing finding below (inv_pair_coded) *)
+Theorem C16_invariance_loss_uses_the_coded_pairing :
+  forall (K : ofield) (eps : K) (A : nat) (rows : list (list (nvec K))) (b j : nat),
+    inv_similarity eps A rows b j =
+      fsum (map (fun i => cos_sim eps (inv_node rows (fst (inv_pair_coded A b i)) j)
+                                      (inv_node rows (snd (inv_pair_coded A b i)) j)) (seq 1 (A - 1)%nat)).
+Proof. exact inv_similarity_pairs. Qed.
+Print Assumptions C16_invariance_loss_uses_the_coded_pairing.
+
+Theorem C16_invariance_loss_raises_for_fewer_than_two_views :
+  forall (K : ofield) (eps : K) (A : nat) (rows : list (list (nvec K))), (A < 2)%nat -> inv_loss eps A rows = None.
+Proof. exact inv_loss_raises_lt2. Qed.
+Print Assumptions C16_invariance_loss_raises_for_fewer_than_two_views.
+
+Theorem C16_cosine_similarity_symmetric :
+  forall (K : ofield) (eps : K) (u v : nvec K), cos_sim eps u v = cos_sim eps v u.
+Proof. exact cos_sim_sym. Qed.
+Print Assumptions C16_cosine_similarity_symmetric.
+
+Theorem C16_cosine_similarity_invariant_under_positive_scaling :
+  forall (K : ofield) (eps c : K) (u v : nvec K),
+    flt f0 eps -> flt f0 c -> fle eps (snd u) -> fle eps (c * snd u) ->
+    cos_sim eps (nv_scale c u) v = cos_sim eps u v /\ (nv_ok u -> nv_ok (nv_scale c u)).
+Proof. exact cos_sim_scale_ok. Qed.
+Print Assumptions C16_cosine_similarity_invariant_under_positive_scaling.
+
+Theorem C16_cosine_similarity_of_a_view_with_itself_is_one :
+  forall (K : ofield) (eps : K) (u : nvec K), nv_ok u -> flt f0 eps -> fle eps (snd u) -> cos_sim eps u u = f1.
+Proof. exact cos_sim_self. Qed.
+Print Assumptions C16_cosine_similarity_of_a_view_with_itself_is_one.
+
+(* |cos| <= 1 under the Cauchy-Schwarz inequality stated for the supplied norms ... *)
+Theorem C16_cosine_similarity_bounded_under_cauchy_schwarz :
+  forall (K : ofield) (eps : K) (u v : nvec K),
+    flt f0 eps -> fle eps (snd u) -> fle eps (snd v) ->
+    fle (dot (fst u) (fst v) * dot (fst u) (fst v)) ((snd u * snd u) * (snd v * snd v)) ->
+    fle (- f1) (cos_sim eps u v) /\ fle (cos_sim eps u v) f1.
+Proof. exact cos_sim_bound_under_cs. Qed.
+Print Assumptions C16_cosine_similarity_bounded_under_cauchy_schwarz.
+
+(* ... and Cauchy-Schwarz itself holds in every ordered field, so the bound needs correct norms only *)
+Theorem C16_cauchy_schwarz :
+  forall (K : ofield) (u v : list K), length u = length v -> fle (dot u v * dot u v) (dot u u * dot v v).
+Proof. exact cauchy_schwarz. Qed.
+Print Assumptions C16_cauchy_schwarz.
+
+Theorem C16_cosine_similarity_bounded :
+  forall (K : ofield) (eps : K) (u v : nvec K),
+    nv_ok u -> nv_ok v -> length (fst u) = length (fst v) ->
+    flt f0 eps -> fle eps (snd u) -> fle eps (snd v) ->
+    fle (- f1) (cos_sim eps u v) /\ fle (cos_sim eps u v) f1.
+Proof. exact cos_sim_bound. Qed.
+Print Assumptions C16_cosine_similarity_bounded.
+
 (* FINDING (code as it is): invariance_loss regroups "(b a)" against the augmentation-major row layout and so
    compares embeddings of different instances -- for every batch of >= 2 instances and >= 2 augmentations *)
 Theorem C16_invariance_pairing_refuted :
@@ -382,3 +456,8 @@ Example C16_nonvacuous_ppo_ratio_one :
                      [lf (q (-2) 1) 4; lf (q (-2) 1) 5] [cst (q 1 1); cst (q 1 1)] in
   vals (dt (po_surrogate o)) = [(-1 # 2); (-1 # 2); 1; 1]%Q /\ e_tab (q 0 1) = q 1 1.
 Proof. exact ex_ppo_ratio_one. Qed.
+
+Example C16_nonvacuous_invariance_loss :    (* views [[3,4],[1,0]] / [[4,3],[0,1]], B = 1, A = 2: (24/25 + 0) / 2 = 12/25 = 0.48 *)
+  let rows := [[nv2 3 4 5; nv2 1 0 1]; [nv2 4 3 5; nv2 0 1 1]] in
+  inv_wfb rows = true /\ inv_loss (K:=QcF) (qc 1 100000000) 2 rows = Some (qc 12 25).
+Proof. exact inv_loss_example. Qed.
